@@ -289,10 +289,57 @@ def check(ctx: Ctx) -> list[RuleResult]:
     r3.nontrivial += 1
     joins = [n for n in own_nodes(fa.node) if isinstance(n, ast.Call) and isinstance(n.func, ast.Attribute) and n.func.attr == "join" and isinstance(n.func.value, ast.Constant) and n.args and isinstance(n.args[0], ast.Tuple) and len(n.args[0].elts) > 4]
     order = [norm(e) for e in joins[0].args[0].elts] if joins else []
-    if joins and joins[0].func.value.value == " " and order == ["verb", "seqn", "*(a.id for a in addrs)", "code", "f'{int(len(payload) / 2):03d}'", "payload"]:  # type: ignore[union-attr]
+    elts = list(joins[0].args[0].elts) if joins else []
+
+    def _len_field_ok(e: ast.expr) -> bool:
+        """f"{<len(payload) halved>:03d}": the value is evaluated for a few payload lengths by a tiny arithmetic evaluator."""
+        if not (isinstance(e, ast.JoinedStr) and len(e.values) == 1 and isinstance(e.values[0], ast.FormattedValue)):
+            return False
+        fv = e.values[0]
+        try:
+            spec = ctx.consts.eval_in(fa, fv.format_spec) if fv.format_spec is not None else ""
+        except Exception:
+            return False
+        if spec != "03d":
+            return False
+
+        def ev(x: ast.expr, n: int):
+            if isinstance(x, ast.Constant) and isinstance(x.value, (int, float)):
+                return x.value
+            if isinstance(x, ast.Call) and norm(x.func) == "len" and len(x.args) == 1 and norm(x.args[0]) == "payload":
+                return n
+            if isinstance(x, ast.Call) and norm(x.func) in ("int", "round") and len(x.args) == 1:
+                return int(ev(x.args[0], n))
+            if isinstance(x, ast.BinOp):
+                a, b = ev(x.left, n), ev(x.right, n)
+                if isinstance(x.op, ast.Div):
+                    return a / b
+                if isinstance(x.op, ast.FloorDiv):
+                    return a // b
+                if isinstance(x.op, ast.RShift):
+                    return a >> b
+                if isinstance(x.op, ast.Mult):
+                    return a * b
+            raise ValueError(norm(x))
+
+        try:
+            return all(ev(fv.value, n) == n // 2 for n in (2, 4, 10, 96))
+        except (ValueError, TypeError, ZeroDivisionError):
+            return False
+
+    shape_ok = (
+        bool(joins)
+        and joins[0].func.value.value == " "  # type: ignore[union-attr]
+        and len(elts) == 6
+        and [norm(elts[i]) for i in (0, 1, 3, 5)] == ["verb", "seqn", "code", "payload"]
+        and isinstance(elts[2], ast.Starred)
+        and "addrs" in norm(elts[2])
+        and _len_field_ok(elts[4])
+    )
+    if shape_ok:
         r3.ok({"Command._from_attrs": order})
     else:
-        r3.fail(f"{fa.short}:join-order", fa.loc(), f"Command._from_attrs assembles {order}: expected verb, seqn, 3 addresses, code, f'{{len(payload)/2:03d}}', payload, single-space separated")
+        r3.fail(f"{fa.short}:join-order", fa.loc(), f"Command._from_attrs assembles {order}: expected verb, seqn, 3 addresses, code, a 3-digit len = len(payload)/2, payload, single-space separated")
     # the "no sequence number" normalisation must not swallow a numeric 0 (seqn ranges over ---, 000-255): decision table of the
     # statements of _from_attrs that define seqn, over seqn in {None, 0, 7, '', '---', '000', other}
     r3.instances += 1
